@@ -110,7 +110,7 @@ def parse_frames(stack):
 
 
 def run(O, P):
-    n = 60 if O.tier == "quick" else 600
+    n = 60 if O.tier == "quick" else 1800
     histories = []
     native_cases = []
     def native(cfg, code, file):
@@ -246,7 +246,7 @@ def run(O, P):
             if len(O.samples) < 4:
                 O.samples.append({"id": h["id"], "kind": h["kind"], "steps": [s["op"] for s in h["steps"]][:8], "expected_lines": [e[2] for e in h["expect"]]})
     # findEntry (JS) vs the extracted find_entry / lookup (Coq) on random maps
-    nmaps = 40 if O.tier == "quick" else 400
+    nmaps = 40 if O.tier == "quick" else 1200
     jobs, blocks = [], []
     for i in range(nmaps):
         rng = random.Random("%s/c11map/%d" % (O.seed, i))
